@@ -156,6 +156,7 @@ func c14Origins(v ssa.Value, depth int, seen map[ssa.Value]bool, out map[string]
 
 func c14(r *core.Run) {
 	p := r.P
+	defer c14Extra(r)
 	r.Explanation = "Decides on the current source: both EWMA updates of the done-callback are convex combinations a·old + (1−a)·new of the atomically loaded old value (normal form, K7), with a weight that is 0 or exp(c·td), c < 0, td clamped at 0; the latency sample is now − start; the success target is 1000 except under Err != nil ∧ !Acceptable(Err), where it is 0, and Acceptable rejects exactly {DeadlineExceeded, Internal, Unavailable, DataLoss, Unimplemented}; Pick increments inflight of the chosen connection exactly once on every successful return (never on a failing one), returns that connection's conn and a callback bound to it, and the callback decrements the same counter exactly once on every path, with no other writer; picker state only under its lock; the chosen connection is an element of p.conns, which Build fills from ReadySCs with an initial score in [0,1000]; healthy ⇔ success > 500; the retry loop leaves early only when both candidates are healthy; choose returns the lower-load candidate unless the other one was not picked for more than 1 s; load ≡ ⌊√(lag+1)⌋·(inflight+1)."
 	r.NotDecided = "selection frequencies, the number of completions until a failing backend turns unhealthy, the once-per-second bound under traffic, behaviour of concurrent completions (the EWMA read-modify-write is not atomic as a whole), float rounding."
 
